@@ -337,8 +337,134 @@ def solo_result(text):
     return out[0]
 
 
+def md_lines_digest():
+    """Line-level answers of the Markdown matcher for every step keyword of the dialects in which one keyword prefixes another."""
+    out = []
+    for d in ('fr', 'cs', 'sk', 'ht', 'en-old', 'en'):
+        tm = GherkinInMarkdownTokenMatcher(d)
+        spec = _dialect.DIALECTS[d]
+        for role in ('given', 'when', 'then', 'and', 'but'):
+            for k in spec[role]:
+                t = Token(GherkinLine('* ' + k + 'x', 1), {'line': 1})
+                try:
+                    r = tm.match_StepLine(t)
+                    out.append((d, k, r, getattr(t, 'matched_keyword', None), getattr(t, 'matched_text', None)))
+                except Exception as e:  # noqa: BLE001
+                    out.append((d, k, type(e).__name__))
+        for role in ('feature', 'rule', 'background', 'scenario', 'scenarioOutline', 'examples'):
+            for k in spec[role]:
+                t = Token(GherkinLine('## ' + k + ': x', 1), {'line': 1})
+                try:
+                    r = [getattr(tm, 'match_' + n)(t) for n in ('FeatureLine', 'RuleLine', 'BackgroundLine', 'ScenarioLine', 'ExamplesLine')]
+                    out.append((d, k, r, getattr(t, 'matched_keyword', None)))
+                except Exception as e:  # noqa: BLE001
+                    out.append((d, k, type(e).__name__))
+    return out
+
+
+# ---------------------------------------------------------------------------
+# one Compiler used by two compilations at the same time: all interleavings at its id requests
+# ---------------------------------------------------------------------------
+COMPILE_POOL = [
+    "@fa\nFeature: a\n  Scenario: s\n    Given x\n  Scenario: t\n    Given y\n",
+    "#language: fr\n@fb\nFonctionnalité: b\n  @r\n  Règle: r\n    Scénario: s\n      Soit y\n",
+    "@fc\nFeature: c\n  Background:\n    Given b\n  Scenario Outline: o <a>\n    Given <a>\n    Examples:\n      | a |\n      | 1 |\n",
+    "Feature: d\n  Scenario: no steps\n  @x\n  Scenario: e\n    Given z\n",
+]
+
+
+class GatedIds(IdGenerator):
+    def __init__(self, gate, start):
+        super().__init__()
+        for _ in range(start):
+            super().get_next_id()
+        self.g = gate
+        self.local = threading.local()
+
+    def get_next_id(self):
+        i = getattr(self.local, 'who', None)
+        if i is not None:
+            self.g.back.release()
+            self.g.sems[i].acquire()
+        return super().get_next_id()
+
+
+def _compile_worker(i, compiler, ids, doc, uri, gate, out):
+    ids.local.who = i
+    try:
+        out[i] = ('ok', _strip_ids(copy.deepcopy(compiler.compile(dict(doc, uri=uri)))))
+    except BaseException as e:  # noqa: BLE001
+        out[i] = ('exc', '%s: %s' % (type(e).__name__, e))
+    gate.done[i] = True
+    gate.back.release()
+
+
+def run_compile_schedule(docs, schedule):
+    n = len(docs)
+    g = Gate(n)
+    ids = GatedIds(g, 1000)
+    c = Compiler(ids)
+    out = [None] * n
+    th = [threading.Thread(target=_compile_worker, args=(i, c, ids, docs[i], 'uri-%d' % i, g, out), daemon=True) for i in range(n)]
+    for t in th:
+        t.start()
+    for _ in range(n):
+        if not g.back.acquire(timeout=20):
+            return out, 'stuck before the first id request'
+    for step, i in enumerate(schedule):
+        if g.done[i]:
+            return out, 'schedule gives the baton to a finished compile at step %d' % step
+        g.sems[i].release()
+        if not g.back.acquire(timeout=20):
+            return out, 'deadlock after step %d' % step
+    for t in th:
+        t.join(timeout=20)
+    return out, None if all(g.done) else 'compiles still blocked after the whole schedule'
+
+
+def id_requests(doc, uri):
+    class Counting(IdGenerator):
+        n = 0
+
+        def get_next_id(self):
+            Counting.n += 1
+            return super().get_next_id()
+    Counting.n = 0
+    Compiler(Counting()).compile(dict(doc, uri=uri))
+    return Counting.n
+
+
+@worker
+def job_compile_schedules(i, j):
+    acc = Acc()
+    docs = []
+    for k in (i, j):
+        a = I.parse(COMPILE_POOL[k])
+        docs.append(a[1])
+    solos = [('ok', _strip_ids(Compiler(IdGenerator()).compile(dict(d, uri='uri-%d' % n)))) for n, d in enumerate(docs)]
+    counts = [id_requests(d, 'uri-%d' % n) for n, d in enumerate(docs)]
+    sched = None
+    for sched in interleavings(counts):
+        acc.n += 1
+        acc.validated += 1
+        acc.nontrivial += 1
+        out, err = run_compile_schedule(docs, sched)
+        case = {'kind': 'compile-schedule', 'documents': [i, j], 'schedule': sched}
+        acc.states.add(('compile', i, j, sum(1 for a, b in zip(sched, sched[1:]) if a != b)))
+        if err:
+            acc.violation('schedule-stuck', case, err)
+            continue
+        if out != solos:
+            bad = [k for k in range(2) if out[k] != solos[k]]
+            acc.violation('compile-interleaving-dependence', case,
+                          'two compilations sharing one Compiler, interleaved at its id requests: result(s) %s differ from compiling alone (ids aside)' % bad,
+                          observed=_short(out[bad[0]]), expected=_short(solos[bad[0]]))
+    acc.sample({'documents': [COMPILE_POOL[i], COMPILE_POOL[j]], 'schedule': sched})
+    return acc
+
+
 def pool_digest():
-    res = [fresh(t, 'en', False, True) for t in POOL]
+    res = [fresh(t, 'en', False, True)[:3] for t in POOL] + [md_lines_digest()]
     return hashlib.sha256(json.dumps(res, sort_keys=False, ensure_ascii=False, default=repr).encode('utf8')).hexdigest()
 
 
@@ -403,6 +529,8 @@ def run(ctx):
     n = len(SCHED_POOL)
     pairs = [(i, j) for i in range(n) for j in range(i, n)]
     ctx.level('schedules: all interleavings of 2 parses (<=5 lines)', [job_schedules.job(p, None) for p in pairs])
+    m = len(COMPILE_POOL)
+    ctx.level('one Compiler, two compilations: all interleavings at id requests', [job_compile_schedules.job(i, j) for i in range(m) for j in range(i, m)])
     triples = [(i, j, k) for i in range(n) for j in range(i, n) for k in range(j, n)]
     if ctx.quick:
         ctx.level('schedules: all interleavings of 3 parses (<=2 lines)', [job_schedules.job(t, 2) for t in triples])
@@ -432,6 +560,9 @@ def replay(case):
         if out != solos:
             return ['interleaved results differ from solo results under schedule %s' % case['schedule']]
         return []
+    if case['kind'] == 'compile-schedule':
+        a = job_compile_schedules(*case['documents'])
+        return [v[0]['message'] for v in a.viol.values()]
     if case['kind'] == 'md-history':
         md_histories(acc)
     return [v[0]['message'] for v in acc.viol.values()]
